@@ -6,7 +6,7 @@ var ruleAddenda = map[string]string{
 	"C01": "s.conc WA: a streamed message whose context ends before Close, then the next message from the same goroutine (the peer never receives a message that was not written).",
 	"C02": "s.shared: Write(big), Close and Write(tail) on one writer handle from three goroutines over a stalled transport, then the next message. s.afterclose: a streamed message open across a local Close / peer Close / CloseRead policy close judged as a frame stream (no data frame behind the Close frame).",
 	"C03": "schedx part s.conc: a 300- or 70000-byte inbound message whose header is cut inside its extended length (or mask key) while other goroutines write. Part netconn: the foreign senders read through NetConn (bytes arriving together with the end of a message are delivered).",
-	"C04": "wsjson stream whose every fragment prefix is itself a valid document (a cut message is never reported as a complete, shorter document).",
+	"C04": "wsjson documents followed by white space (the value is complete before the message is: a transport end inside the trailing white space is still a cut message).",
 	"C05": "WI: inbound message whose header arrives in two pieces while writers write; race units also over reader-vs-CloseNow with an inbound message in flight.",
 	"C06": "schedx modes orders-closed-underneath (the connection is closed by the peer / a context, then CloseNow and Close) and simultaneous (both ends send their Close frame before reading the other's).",
 	"C07": "seqx part isolation: ordered pairs of handshakes (8 x 8 offers x 3 server modes): A's negotiated parameters are not changed by B's handshake.",
